@@ -87,6 +87,15 @@ Definition is_float_literal (t : list Z) : bool :=
   | [] => false
   end.
 
+(* integer_ = zero_ or an optional sign_ and ordinal_ ; hexadecimal_ = 0x and one or more base16_ *)
+Definition is_integer_literal (t : list Z) : bool :=
+  list_eqb Z.eqb t [48] || ordinal_ok (strip_sign t).
+Definition is_hex_literal (t : list Z) : bool :=
+  match t with
+  | a :: b :: r => (a =? 48) && (b =? 120) && nonempty r && forallb hexd r
+  | _ => false
+  end.
+
 (* float_ at the START of a text (as inside complex_): the rest of the text after the longest
    match.  No shorter match can let the whole complex expression succeed: a fraction or an
    ordinal cut short is followed by a digit, and a scalar whose exponent matches is followed by
